@@ -305,11 +305,13 @@ func (c *Conn) writeFrame(ctx context.Context, fin bool, flate bool, opcode opco
 	if err != nil {
 		return 0, err
 	}
+	simYield("wf.header", c)
 
 	n, err := c.writeFramePayload(p)
 	if err != nil {
 		return n, err
 	}
+	simYield("wf.payload", c)
 
 	if c.writeHeader.fin {
 		err = c.bw.Flush()
